@@ -55,3 +55,92 @@ Lemma s2b_b2s b : s2b (b2s b) = Some b.
 Proof. destruct b; reflexivity. Qed.
 Lemma b2s_tok b : tok_ok (b2s b).
 Proof. destruct b; split; try discriminate; reflexivity. Qed.
+
+(* ---- integers are tokens; hex bytes ---- *)
+
+Lemma no_ws_uint_e u : no_ws (NilEmpty.string_of_uint u) = true.
+Proof. induction u; simpl; auto. Qed.
+Lemma no_ws_uint u : no_ws (NilZero.string_of_uint u) = true.
+Proof. destruct u; try apply no_ws_uint_e. reflexivity. Qed.
+Lemma uint_nonempty u : NilZero.string_of_uint u <> "".
+Proof. destruct u; simpl; discriminate. Qed.
+Lemma z2s_tok z : tok_ok (z2s z).
+Proof.
+  unfold z2s, tok_ok. destruct z as [|p|p]; simpl.
+  - split; [discriminate|reflexivity].
+  - split; [apply uint_nonempty | apply no_ws_uint].
+  - split; [discriminate | apply no_ws_uint].
+Qed.
+
+(* hex *)
+Lemma hex_val_digit n : (0 <= n < 16)%Z -> hex_val (hex_digit n) = Some n.
+Proof.
+  intros H. assert (n = 0 \/ n = 1 \/ n = 2 \/ n = 3 \/ n = 4 \/ n = 5 \/ n = 6 \/ n = 7 \/ n = 8 \/ n = 9 \/ n = 10
+                    \/ n = 11 \/ n = 12 \/ n = 13 \/ n = 14 \/ n = 15)%Z as C by lia.
+  repeat (destruct C as [C|C]; [subst; reflexivity|]). subst. reflexivity.
+Qed.
+Lemma parse_hex_app x l : (0 <= x < 256)%Z -> parse_hex (hex_byte x ++ l) = option_map (cons x) (parse_hex l).
+Proof.
+  intros H. unfold hex_byte. cbn [append parse_hex].
+  rewrite !hex_val_digit.
+  - destruct (parse_hex l); cbn [option_map]; [|reflexivity]. f_equal. f_equal.
+    pose proof (Z.div_mod x 16). lia.
+  - apply Z.mod_pos_bound. lia.
+  - split; [apply Z.div_pos; lia | apply Z.div_lt_upper_bound; lia].
+Qed.
+Theorem hex_rt l : Forall (fun x => 0 <= x < 256)%Z l -> parse_hex (hex_of_bytes l) = Some l.
+Proof.
+  unfold hex_of_bytes. induction 1 as [|x r Hx Hr IH]; [reflexivity|].
+  cbn [map concat_s]. rewrite parse_hex_app by exact Hx. rewrite IH. reflexivity.
+Qed.
+
+(* ---- UTF-8 ---- *)
+Ltac Zify.zify_post_hook ::= Z.to_euclidean_division_equations.
+
+Lemma nb x : (x < 256)%N -> N_of_ascii (byte x) = x.
+Proof. intros. unfold byte. apply N_ascii_embedding. assumption. Qed.
+Lemma cont_byte y : (y < 64)%N -> cont (byte (128 + y)) = Some y.
+Proof.
+  intros H. unfold cont. rewrite nb by lia.
+  replace ((128 <=? 128 + y)%N) with true by (symmetry; apply N.leb_le; lia).
+  replace ((128 + y <? 192)%N) with true by (symmetry; apply N.ltb_lt; lia).
+  cbn [andb]. f_equal. lia.
+Qed.
+Ltac ltb_t := (symmetry; apply N.ltb_lt; lia).
+Ltac ltb_f := (symmetry; apply N.ltb_ge; lia).
+
+Lemma utf8_dec_enc1 c rest : (c < 1114112)%N ->
+  utf8_decode (utf8_enc1 c ++ rest) = option_map (cons c) (utf8_decode rest).
+Proof.
+  intros Hc. unfold utf8_enc1.
+  destruct (c <? 128)%N eqn:E1; [apply N.ltb_lt in E1|apply N.ltb_ge in E1].
+  { cbn [append utf8_decode]. rewrite nb by lia. replace (c <? 128)%N with true by ltb_t. reflexivity. }
+  destruct (c <? 2048)%N eqn:E2; [apply N.ltb_lt in E2|apply N.ltb_ge in E2].
+  { cbn [append utf8_decode]. rewrite nb by lia.
+    replace (192 + c / 64 <? 128)%N with false by ltb_f.
+    replace (192 + c / 64 <? 192)%N with false by ltb_f.
+    replace (192 + c / 64 <? 224)%N with true by ltb_t.
+    rewrite cont_byte by lia.
+    destruct (utf8_decode rest); cbn [option_map]; [|reflexivity]. f_equal. f_equal. lia. }
+  destruct (c <? 65536)%N eqn:E3; [apply N.ltb_lt in E3|apply N.ltb_ge in E3].
+  { cbn [append utf8_decode]. rewrite nb by lia.
+    replace (224 + c / 4096 <? 128)%N with false by ltb_f.
+    replace (224 + c / 4096 <? 192)%N with false by ltb_f.
+    replace (224 + c / 4096 <? 224)%N with false by ltb_f.
+    replace (224 + c / 4096 <? 240)%N with true by ltb_t.
+    rewrite !cont_byte by lia.
+    destruct (utf8_decode rest); cbn [option_map]; [|reflexivity]. f_equal. f_equal. lia. }
+  cbn [append utf8_decode]. rewrite nb by lia.
+  replace (240 + c / 262144 <? 128)%N with false by ltb_f.
+  replace (240 + c / 262144 <? 192)%N with false by ltb_f.
+  replace (240 + c / 262144 <? 224)%N with false by ltb_f.
+  replace (240 + c / 262144 <? 240)%N with false by ltb_f.
+  rewrite !cont_byte by lia.
+  destruct (utf8_decode rest); cbn [option_map]; [|reflexivity]. f_equal. f_equal. lia.
+Qed.
+
+Theorem utf8_rt t : Forall (fun c => (c < 1114112)%N) t -> utf8_decode (utf8_encode t) = Some t.
+Proof.
+  induction 1 as [|c r Hc Hr IH]; [reflexivity|].
+  cbn [utf8_encode]. rewrite utf8_dec_enc1 by exact Hc. rewrite IH. reflexivity.
+Qed.
